@@ -196,23 +196,48 @@ Theorem C15_connected_stop_agrees_with_retry_model : forall ts ts' s force, roun
 Proof. exact connected_stop_agrees. Qed.
 Print Assumptions C15_connected_stop_agrees_with_retry_model.
 
-(* THE ONE CORNER WHERE THE MODELS DIFFER (reported in notes/C15.md, exercised by neither tie):
-   Stop while the supervisor is about to dial (initially, or right after an attempt ended with
-   ErrClientClosed).  The supervisor model always runs the Down block ... *)
+(* THE CORNER "Stop while the supervisor is about to dial" (initially, or right after an attempt
+   ended with ErrClientClosed).  In Go the cancellation is noticed at one of two places a few
+   instructions apart; the model has one event for each.  [Stop]: Quick.RetryWithCtx's entry check
+   / the dial in flight notices it, the Down block runs ... *)
 Theorem C15_stop_about_to_dial_in_supervisor_model : forall s force,
   round_start s -> in_slow s = false ->
   log (step s (Stop force)) = log s ++ LStop :: (if isUp s then [LReport Down true] else []).
 Proof. exact about_to_dial_stop_in_supervisor. Qed.
 Print Assumptions C15_stop_about_to_dial_in_supervisor_model.
 (* ... which as a RetryWithCtx history is "context already ended when the QUICK phase is entered"
-   (first part of the theorem above with ds = []); if instead the cancellation is there when the
-   SLOW phase is entered -- equally possible in the Go code, a few instructions earlier -- the
-   slow func is never called, so there is no Down block.  Supervisor.v has no such transition. *)
+   (first part of the headline theorem with ds = []); if instead the cancellation is there when
+   the SLOW phase is entered the slow func is never called, so there is no Down block ... *)
 Theorem C15_retry_model_cancelled_at_slow_entry : forall first ts,
   let r := R.retry_run_cfg slow_cfg forever keep_errs (Some R.Canceled) first ts in
   R.runs r = 0 /\ kind_of r = KCtx.
 Proof. exact slow_entry_cancelled_no_down. Qed.
 Print Assumptions C15_retry_model_cancelled_at_slow_entry.
+
+(* ... and that is the event [StopAtEntry]: no Down block, no dial, the supervisor ends *)
+Theorem C15_stop_at_entry_agrees_with_retry_model : forall first ts s force,
+  round_start s -> in_slow s = false ->
+  let r := R.retry_run_cfg slow_cfg forever keep_errs (Some R.Canceled) first ts in
+  let s' := step s (StopAtEntry force) in
+  R.runs r = 0 /\ kind_of r = KCtx /\
+  log s' = log s ++ [LStop] /\ stopped s' = true /\ isUp s' = isUp s /\ dials (log s') = dials (log s).
+Proof. exact stop_at_entry_agrees. Qed.
+Print Assumptions C15_stop_at_entry_agrees_with_retry_model.
+
+(* in every other state the two Stop events are the same transition *)
+Theorem C15_stop_events_coincide_elsewhere : forall s f,
+  (stopped s = true \/ connected s = true \/ in_slow s = true \/ 1 <= round_fails s) ->
+  step s (StopAtEntry f) = step s (Stop f).
+Proof. exact stop_events_coincide. Qed.
+Print Assumptions C15_stop_events_coincide_elsewhere.
+
+(* no dial after it either (all the other theorems above quantify over all event lists, so they
+   cover runs with StopAtEntry already; [is_stop] holds of both events) *)
+Theorem C15_no_dial_after_stop_at_entry : forall up0 a0 evs1 f evs2,
+  dials (log (run (init up0 a0) (evs1 ++ StopAtEntry f :: evs2))) =
+  dials (log (run (init up0 a0) evs1)).
+Proof. exact no_dial_after_stop_at_entry. Qed.
+Print Assumptions C15_no_dial_after_stop_at_entry.
 
 (* non-vacuity: a round of two failed attempts (the second after a good handshake), computed by
    the RetryWithCtx model with Quick's configuration and arbitrary draws, and the supervisor on it *)
